@@ -438,8 +438,14 @@ CLAIMS = {
          "single-field corruption/foreign-version file) for an arbitrary injective hash: link_sound (for every history, a successful link "
          "implies every package was type-checked against exactly the interface view — transitively, deps are hashed — carried by the linked "
          "dependency), body_edit_hash_stable, iface_edit_hash_changes, dep_hash_propagates, stale_rejected, corrupt_core_rejected, "
-         "corrupt_iface_rejected, other_version_*_rejected. Tied to artifact.rs/separate.rs by replaying generated histories on the real "
-         "check_package/build_package/read_core/link_cores with JSON files and comparing every outcome (ok/err class, hash identity pattern).",
+         "corrupt_iface_rejected, other_version_*_rejected; linkCores_ok_iff (link_cores accepts iff the inputs are non-empty, duplicate-free, contain Main "
+         "and EVERY recorded dependency hash of EVERY input equals the linked dependency's interface hash - independent of visiting order, package names and "
+         "position in the graph) with stale_edge_rejected / missing_edge_rejected. Tied to artifact.rs/separate.rs by replaying generated histories on the real "
+         "check_package/build_package/read_core/link_cores with JSON files and comparing every outcome (ok/err class, hash identity pattern); histories = random ones over 7 fixed graphs, deterministic catalogues "
+         "(corruptions, foreign versions, every subset of dependents rebuilt, forged dependency tables, order-only edits) and an edge sweep over EVERY labelled "
+         "import graph on Main + 3 packages plus seeded samples on Main + 4 / 5 (each import edge in turn the only stale one). Two model-free oracles on the "
+         "implementation's own outputs: altered-artifact (a hand-altered file takes part in a successful operation) and pinned-hash (a link succeeds although an "
+         "import edge pins another hash than its dependency's core exports, judged from the hash identities the builds print).",
     design_ref="§5 C15",
     note="Trusted: Lean kernel; injectivity of SHA-256∘serde_json is a hypothesis; edit catalogue of 10 interface variants; textual JSON mutation; "
          "error-message classification in harness/src/c15.rs. Known finding: core_ir is covered by no digest.",
